@@ -232,23 +232,70 @@ CLAIMED = {
     ),
 }
 
-# translator ties (harness/core.py GEN_TIES): part of the model is regenerated from the source text on every run
-TIES = {
-    "state": ({"C02", "C03", "C05", "C06", "C07"},
-              " Translator tie: gscrib/gcode_state.py (every GState setter / validator, the enums) is translated by AST into Lean on every "
-              "run (tools/gen_state.py -> Gen/StateSrc.lean) and Props/StateTie.lean (17 theorems, for every state and argument) re-proved: "
-              "the builder model's state transitions - which check comes first, what is assigned and when - are exactly the translated "
-              "methods; the translator itself is validated against the real class through driver mode gstate."),
-    "builder": ({"C02", "C03", "C05", "C06", "C07"},
-                " 24 commands of gscrib/gcode_builder.py (tool/power/coolant on and off, tool_change, feed, power, temperatures, modes, "
-                "sleep, fan, query, write) are translated too (tools/gen_builder.py -> Gen/BuilderSrc.lean) and Props/BuilderTie.lean (20 "
-                "theorems) re-proved: step rejects exactly when the translated method raises - which then has changed and written nothing - "
-                "and otherwise yields the same state and the same statement (instruction from the translated table, same words)."),
-    "point": ({"C01", "C03", "C04", "C11"},
-              " Translator tie: Point.resolve/replace/mask/combine/within_bounds of gscrib/geometry/point.py are translated by AST into Lean on "
-              "every run (tools/gen_point.py -> Gen/PointSrc.lean) and Props/PointTie.lean re-proved: the models' point operations equal the "
-              "translated methods; the translator is validated against the real class through driver mode point."),
+# translator ties (harness/core.py GEN_TIES is the registry: which properties a tie serves is read from there)
+TIE_TEXT = {
+    "table": " Translator tie: the enum -> instruction table of gscrib/codes/gcode_mappings.py is regenerated on every run "
+             "(tools/gen_code_table.py -> Gen/CodeTable.lean) and Props/Tables.lean re-proved: step emits exactly the table's instructions.",
+    "state": " Translator tie: gscrib/gcode_state.py (every GState setter / validator, the enums) is translated by AST into Lean on every "
+             "run (tools/gen_state.py -> Gen/StateSrc.lean) and Props/StateTie.lean (17 theorems, for every state and argument) re-proved: "
+             "the builder model's state transitions - which check comes first, what is assigned and when - are exactly the translated "
+             "methods; the translator itself is validated against the real class through driver mode gstate.",
+    "builder": " 26 methods of gscrib/gcode_builder.py (tool/power/coolant on and off, tool_change, feed, power, temperatures, modes, "
+               "sleep, fan, query, write, _track_move_params, _update_axes) are translated too (tools/gen_builder.py -> Gen/BuilderSrc.lean) and "
+               "Props/BuilderTie.lean (22 theorems) re-proved: step rejects exactly when the translated method raises - which then has changed and "
+               "written nothing - and otherwise yields the same state and the same statement (instruction from the translated table, same words).",
+    "motion": " The motion and halt commands are translated across both classes (tools/gen_motion.py -> Gen/MotionSrc.lean: move, rapid, "
+              "move_absolute, rapid_absolute with the absolute_mode() context manager inlined, set_axis, auto_home, probe, halt, wait/pause/stop, "
+              "emergency_halt, comment, add_hook/remove_hook and their helpers in gscrib/gcode_builder.py and gscrib/gcode_core.py) and "
+              "Props/MotionTie.lean (14 theorems) re-proved for every state, finite target, parameter list and hook list: same outcome, same builder "
+              "afterwards (a rejected call leaves it untouched: MotionTie_reject_unchanged/_silent), same statements in the same order "
+              "(instruction, axis words, other words, the G90/G91 bracket), same hook calls with the true origin and target.",
+    "point": " Translator tie: Point.resolve/replace/mask/combine/within_bounds of gscrib/geometry/point.py are translated by AST into Lean on "
+             "every run (tools/gen_point.py -> Gen/PointSrc.lean) and Props/PointTie.lean re-proved: the models' point operations equal the "
+             "translated methods; the translator is validated against the real class through driver mode point.",
+    "bounds": " Translator tie: all of gscrib/geometry/bounds.py (BoundManager.set_bounds/get_bounds/validate, the property table) and the "
+              "Point comparison methods are translated (tools/gen_bounds.py -> Gen/BoundsSrc.lean); Props/BoundsTie.lean (17 theorems): the "
+              "model's bounds table, its validation of numbers and points and its rejections (a rejected set_bounds changes nothing) are the "
+              "translated methods; validated against the real class through driver mode bounds.",
+    "hook": " Translator tie: gscrib/hooks/extrusion_hook.py (factory and hook) is translated (tools/gen_hook.py -> Gen/HookSrc.lean); "
+            "Props/HookTie.lean (5 theorems): the model's extrusion hook with k = nozzle*layer/(pi*(d/2)^2) is the translated hook, in both "
+            "extrusion modes; validated through driver mode hook.",
+    "socket": " Translator tie: Device._readline_buf/_readline_socket of gscrib/printrun/device.py are translated by AST on every run "
+              "(tools/gen_socket.py -> Gen/SocketSrc.lean, the while loop as recursion over scripted read/select answers); Props/SocketTie.lean "
+              "(5 theorems, no hypotheses): the model's readlineBuf/readlineSocket equal the translated methods for every buffer and script; "
+              "validated against the real Device through driver mode socketsrc.",
+    "report": " Translator tie: the report side of PrintrunWriter (gscrib/writers/printrun_writer.py: _on_device_message, _parse_message, "
+              "_update_param, get_parameter, the prefix/axes constants and the text of VALUE_PATTERN) is translated (tools/gen_report.py -> "
+              "Gen/ReportSrc.lean); Props/ReportTie.lean (10 theorems): the report model equals the translated methods, which never raise; "
+              "validated against a real writer through driver mode reportsrc.",
+    "xform": " Translator tie: Transform and CoordinateTransformer (gscrib/geometry/transform.py, transformer.py: 22 methods) are translated "
+             "(tools/gen_xform.py -> Gen/XformSrc.lean) under an ownership discipline that makes a missing deepcopy a refusal; "
+             "Props/XformTie.lean (25 theorems): pivot conjugation and multiplication order, inverse recomputed on every change, stack / named "
+             "states / context-manager frames equal the model's, a rejected call leaves the object unchanged; validated through driver mode xform.",
+    "writers": " Translator tie: the writer list of GCodeCore (add_writer, remove_writer, write, flush, teardown, __exit__) and FileWriter "
+               "(gscrib/writers/file_writer.py) are translated (tools/gen_writers.py -> Gen/WritersSrc.lean); Props/WritersTie.lean (15 theorems "
+               "incl. WritersTie_run for every history): the writers model equals the translated source; validated through driver mode writerssrc.",
+    "tracer": " Translator tie: Direction.enforce/full_turn, to_absolute(_list)/to_distance_mode, PathTracer._filter_segments, estimate_length, "
+              "parametric and the set-up arithmetic of arc/circle/helix/thread/spiral are translated generically over the scalar type "
+              "(tools/gen_tracer.py -> Gen/TracerSrc.lean); Props/TracerTie.lean: the tracer model's functions equal the translated ones for every "
+              "scalar type with the model's operations; validated through driver mode tracersrc.",
+    "format": " Translator tie: every method of DefaultFormatter (gscrib/formatters/default_formatter.py) incl. the regex, replacement, count and "
+              "comment-symbol table as constants is translated (tools/gen_format.py -> Gen/FormatSrc.lean); Props/FormatTie.lean (16 theorems): "
+              "number guards, parameters ordering, command, comment sanitising order, line and the setters equal the formatter model; validated "
+              "through driver mode formatsrc.",
+    "height": " Translator tie: the raster, sparse and flat heightmap classes (gscrib/heightmaps/) are translated around their external "
+              "interpolants (tools/gen_height.py -> Gen/HeightSrc.lean); Props/HeightTie.lean (21 theorems): range checks, argument order of the "
+              "interpolant, rounding (pyRound = roundHalfEven proved), segment counts, filtering and the setters equal the heightmap model; "
+              "validated through driver mode heightsrc.",
 }
+
+
+def ties():
+    import sys
+    sys.path.insert(0, str(VERIF))
+    from harness import core
+    return {k: (set(t["props"]), TIE_TEXT[k]) for k, t in core.GEN_TIES.items()}
+
 
 PENDING_REASON = "machinery for this property is not finished yet (build in progress, see DESIGN.md section 12); not claimed"
 
@@ -263,7 +310,7 @@ def main():
     for pid in props:
         if pid in CLAIMED:
             tech, text, note, ref = CLAIMED[pid]
-            for props_, note_ in TIES.values():
+            for props_, note_ in ties().values():
                 if pid in props_:
                     tech += note_
             checks.append({
@@ -294,10 +341,12 @@ def main():
             "name": "lean4-model+correspondence",
             "path": "lean/ (lake project GscribModel, driver binary) + harness/ + run.py",
             "serves_properties": sorted(CLAIMED),
-            "kind_free_text": "Lean 4.33 theorems over executable models - hand-written, with the state class, the point "
-                              "algebra and the instruction table regenerated from the source text on every run and tied to the "
-                              "hand-written part by re-proved theorems; every run re-builds, audits axioms, and runs the model "
-                              "driver and the real Python code on the same generated cases",
+            "kind_free_text": "Lean 4.33 theorems over executable models - hand-written, with large parts of the code (state class, "
+                              "builder commands incl. motion and halts, point algebra, bounds, instruction table, formatter, transformer, "
+                              "writers, tracer set-up and filter, socket line splitting, report parsing, heightmaps, extrusion hook) "
+                              "translated from the source text on every run and tied to the hand-written models by re-proved theorems; "
+                              "every run re-builds, audits axioms, and runs the model driver and the real Python code on the same "
+                              "generated cases",
         }],
         "checks": checks,
         "notes": "Exit codes: 0 held, 1 VIOLATION, 2 infrastructure. known_findings.json lists genuine defects (fixed / finding).",
